@@ -38,7 +38,7 @@ EXP_MAX = 3.5           # largest accepted growth exponent
 FIT_FLOOR = 0.020       # points below 20 ms do not enter the fit
 CONFIRM_MIN = 1.0       # an EDA witness is confirmed if some n takes more than 1 s ...
 CONFIRM_RATIO = 1.8     # ... and time grows at least 1.8x per added pump
-CONFIRM_KILL = 2.5
+CONFIRM_KILL = 3.3      # >= CONFIRM_RATIO^2 * CONFIRM_MIN: with steps of 2 pumps a killed job always decides the ratio test
 CAP = 30                # stop a stage after this many violating families (broken trees would take hours)
 
 _CTX = {}
@@ -347,18 +347,22 @@ def mkjob(kind, text):
 
 
 def remeasure(chk, pool, jobs, first, kill, stats):
-    """Anything that is about to be reported is measured two more times and the *minimum* is used:
-    backtracking is reproducible, a stall of the machine is not."""
+    """Anything that is about to be reported is measured again and the *minimum* is used (a third time if the
+    two disagree by more than 2x): backtracking is reproducible, a stall of the machine is not."""
     if not jobs:
         return []
+    def cost(r):
+        return kill if r[1] in ('killed', 'died') else r[0]
     r2 = pool.run(jobs, kill, batch=1)
-    r3 = pool.run(jobs, kill, batch=1)
-    chk.count(2 * len(jobs))
+    chk.count(len(jobs))
     stats['remeasured'] += len(jobs)
-    out = []
-    for a, b, c in zip(first, r2, r3):
-        best = min((a, b, c), key=lambda r: (kill if r[1] in ('killed', 'died') else r[0]))
-        out.append(best)
+    out = [min(a, b, key=cost) for a, b in zip(first, r2)]
+    again = [k for k, (a, b) in enumerate(zip(first, r2)) if max(cost(a), cost(b)) > 2 * min(cost(a), cost(b))]
+    if again:
+        r3 = pool.run([jobs[k] for k in again], kill, batch=1)
+        chk.count(len(again))
+        for k, c in zip(again, r3):
+            out[k] = min(out[k], c, key=cost)
     return out
 
 
@@ -389,7 +393,7 @@ def measure(chk, pool, fams, kind, label, stats, big=True, group=None, deep_all=
     nviol = 0
     alive = []
     smallpt = {}
-    CH = 500
+    CH = 250
     for c0 in range(0, len(fams), CH):
         chunk = fams[c0:c0 + CH]
         jobs = [mkjob(kind, fam_text(f, small_n(f))) for f in chunk]
@@ -425,30 +429,63 @@ def measure(chk, pool, fams, kind, label, stats, big=True, group=None, deep_all=
             return nviol
     if not big:
         return nviol
-    # growth ladder, level by level; a family leaves the ladder when it is killed or flagged
+    # growth ladder, level by level.  A family leaves the ladder when it is flagged.  When a point is killed by
+    # the watchdog without deciding the criterion (the previous point was too slow for the ratio to be
+    # conclusive), the gap between the last completed n and the killed n is bisected (geometric midpoint).
     lad = {f: ladder(f) for f in alive}
     hist = {f: [smallpt[f] + (False,)] for f in alive}      # (length, cpu, killed)
     deep = {f: deep_all or int(_h(f[0] + '\x00' + f[1] + '\x00' + f[2]), 16) % 4 == 0 for f in alive}
-    level = 0
+    st = {f: {'i': 0, 'lo': small_n(f), 'hi': None, 'ref': 0} for f in alive}
+
+    def next_n(f):
+        x = st[f]
+        if x['hi'] is not None:
+            n = int(round(math.sqrt(x['lo'] * x['hi'])))
+            if x['ref'] >= 6 or n <= x['lo'] or n >= x['hi']:
+                return None
+            return n
+        if x['i'] >= len(lad[f]):
+            return None
+        n = lad[f][x['i']]
+        if n > BIG_N[0] and not deep[f]:
+            return None
+        return n
+
+    def flen(f, n):
+        return len(f[0]) + len(f[1]) * n + len(f[2])
+
+    def report(f, bad):
+        h = hist[f]
+        chk.violation(
+            'growth:%s:%s|%s|%s' % (group, f[0], f[1], f[2]),
+            '%s is not polynomially bounded on %r + %r*n + %r: %s' % (what, _short(f[0], 40), f[1], f[2], bad),
+            {'cfg': 'growth', 'group': group, 'selector': '%s unit %r + %r' % (group, f[1], f[2]),
+             'prefix': f[0], 'unit': f[1], 'terminator': f[2],
+             'points': [(l, round(tt, 4), k) for l, tt, k in h], 'kind': list(kind)})
+
     while True:
-        cur = [f for f in alive if level < len(lad[f]) and (lad[f][level] <= BIG_N[0] or deep[f])]
+        cur = [(f, next_n(f)) for f in alive]
+        for f, n in cur:
+            if n is None and st[f]['hi'] is not None:
+                stats['capped'] += 1     # slow but never beyond the exponent: polynomial with a large constant
+        cur = [(f, n) for f, n in cur if n is not None]
         if not cur:
             break
-        jobs = [mkjob(kind, fam_text(f, lad[f][level])) for f in cur]
+        jobs = [mkjob(kind, fam_text(f, n)) for f, n in cur]
         res = pool.run(jobs, BIG_KILL, batch=8)
         chk.count(len(jobs))
 
-        def point(f, r):
-            n = lad[f][level]
-            L = len(f[0]) + len(f[1]) * n + len(f[2])
+        def point(f, n, r):
             killed = r[1] in ('killed', 'died')
-            return L, (BIG_KILL if killed else r[0]), killed
-        sus = [k for k, (f, r) in enumerate(zip(cur, res)) if _judge(hist[f], *point(f, r)) or r[1] in ('killed', 'died')]
+            return flen(f, n), (BIG_KILL if killed else r[0]), killed
+        sus = [k for k, ((f, n), r) in enumerate(zip(cur, res))
+               if r[1] in ('killed', 'died') or _judge(hist[f], *point(f, n, r))]
         for k, r in zip(sus, remeasure(chk, pool, [jobs[k] for k in sus], [res[k] for k in sus], BIG_KILL, stats)):
             res[k] = r
         nxt = []
-        for f, r in zip(cur, res):
-            L, t, killed = point(f, r)
+        for (f, n), r in zip(cur, res):
+            L, t, killed = point(f, n, r)
+            x = st[f]
             stats['big_jobs'] += 1
             stats['big_max'] = max(stats['big_max'], t)
             if t >= 0.05:
@@ -458,26 +495,34 @@ def measure(chk, pool, fams, kind, label, stats, big=True, group=None, deep_all=
                 del sl[12:]
             h = hist[f]
             bad = _judge(h, L, t, killed)
-            h.append((L, t, killed))
-            pts = [(l, tt) for (l, tt, _k) in h if tt >= FIT_FLOOR]
-            if len(pts) >= 3 and pts[-1][0] >= 3 * pts[0][0]:
-                stats['max_exponent'] = max(stats['max_exponent'], fit_exponent(pts))
-            if lad[f][level] == BIG_N[0] and t >= FIT_FLOOR:
-                deep[f] = True
+            if killed:
+                if bad:
+                    h.append((L, t, True))
+                else:
+                    x['hi'] = n
+                    x['ref'] += 1
+            else:
+                h.append((L, t, False))
+                x['lo'] = n
+                if x['hi'] is None:
+                    x['i'] += 1
+                else:
+                    x['ref'] += 1
+                    if not bad:      # the killed point, seen from the new last completed point
+                        bad = _judge(h, flen(f, x['hi']), BIG_KILL, True)
+                        if bad:
+                            h.append((flen(f, x['hi']), BIG_KILL, True))
+                pts = [(l, tt) for (l, tt, _k) in h if tt >= FIT_FLOOR]
+                if len(pts) >= 3 and pts[-1][0] >= 3 * pts[0][0]:
+                    stats['max_exponent'] = max(stats['max_exponent'], fit_exponent(pts))
+                if n == BIG_N[0] and t >= FIT_FLOOR:
+                    deep[f] = True
             if bad:
                 nviol += 1
-                chk.violation(
-                    'growth:%s:%s|%s|%s' % (group, f[0], f[1], f[2]),
-                    '%s is not polynomially bounded on %r + %r*n + %r: %s' % (what, _short(f[0], 40), f[1], f[2], bad),
-                    {'cfg': 'growth', 'group': group, 'selector': '%s unit %r + %r' % (group, f[1], f[2]),
-                     'prefix': f[0], 'unit': f[1], 'terminator': f[2],
-                     'points': [(l, round(tt, 4), k) for l, tt, k in h], 'kind': list(kind)})
-            elif not killed:
-                nxt.append(f)
+                report(f, bad)
             else:
-                stats['capped'] += 1     # killed at the CPU limit without exceeding the exponent: polynomial but slow
+                nxt.append(f)
         alive = nxt
-        level += 1
         if nviol >= CAP:
             stats['truncated'].append('%s growth stage stopped after %d violating families' % (label, nviol))
             break
@@ -524,7 +569,7 @@ def selftest_spec(chk, workdir):
 
 def confirm(chk, pool, cands, pats, stats):
     """cands: list of dict(pat index, name, anchor, prefix, pump).  Measures prefix + pump*n + kill on the real
-    code for n = 10, 14, 18 ...; returns the list of confirmed candidates (with evidence)."""
+    code for n = 10, 12, 14 ...; returns the list of confirmed candidates (with evidence)."""
     def job(c, n, k):
         text = c['prefix'] + c['pump'] * n + k
         p = pats[c['pi']]
@@ -532,45 +577,56 @@ def confirm(chk, pool, cands, pats, stats):
             return ('compile', text)
         return ('regex', c['pi'], p.via, text)
     state = {}
-    for ci, c in enumerate(cands):
-        for k in KILLS:
-            state[(ci, k)] = {'hist': [], 'alive': True}
     confirmed = {}
-    n = 10
-    while n <= 70:
-        keys = [key for key, s in state.items() if s['alive'] and key[0] not in confirmed]
-        if not keys:
-            break
-        jobs = [job(cands[ci], n, k) for (ci, k) in keys]
-        res = pool.run(jobs, CONFIRM_KILL, batch=4 if n > 14 else 32)
-        chk.count(len(jobs))
-        stats['confirm_jobs'] += len(jobs)
-        def hit(key, r):
-            st = state[key]
-            killed = r[1] in ('killed', 'died')
-            t = CONFIRM_KILL if killed else r[0]
-            n0, t0 = st['hist'][-1] if st['hist'] else (0, 1e-3)
-            ratio = (t / max(t0, 1e-3)) ** (1.0 / (n - n0))
-            return t, killed, ratio, (t >= CONFIRM_MIN and ratio >= CONFIRM_RATIO)
-        sus = [i for i, (key, r) in enumerate(zip(keys, res)) if hit(key, r)[3] or r[1] in ('killed', 'died')]
-        for i, r in zip(sus, remeasure(chk, pool, [jobs[i] for i in sus], [res[i] for i in sus], CONFIRM_KILL, stats)):
-            res[i] = r
-        for (ci, k), r in zip(keys, res):
-            s = state[(ci, k)]
-            t, killed, ratio, ok = hit((ci, k), r)
-            if ok and ci not in confirmed:
-                confirmed[ci] = {'kill': k, 'n': n, 'cpu_s': round(t, 3), 'killed': killed,
-                                 'per_pump': round(ratio, 2), 'hist': s['hist'] + [(n, round(t, 4))]}
-            s['hist'].append((n, round(t, 4)))
-            if killed:
-                s['alive'] = False
-        # after the two cheap levels keep the two slowest terminators of each candidate
-        if n == 14:
-            for ci in range(len(cands)):
-                ks = sorted(KILLS, key=lambda k: -state[(ci, k)]['hist'][-1][1])
-                for k in ks[2:]:
-                    state[(ci, k)]['alive'] = False
-        n += 4
+    for kills in (KILLS[:2], KILLS[2:]):         # end of input and '$' first; the other terminators only if needed
+        for ci, c in enumerate(cands):
+            for k in kills:
+                state[(ci, k)] = {'hist': [], 'alive': True}
+        n = 10
+        while n <= 70:
+            keys = [(ci, k) for ci in range(len(cands)) for k in kills
+                    if state[(ci, k)]['alive'] and ci not in confirmed]
+            if not keys:
+                break
+            jobs = [job(cands[ci], n, k) for (ci, k) in keys]
+            res = pool.run(jobs, CONFIRM_KILL, batch=4 if n > 12 else 16)
+            chk.count(len(jobs))
+            stats['confirm_jobs'] += len(jobs)
+
+            def hit(key, r):
+                st = state[key]
+                killed = r[1] in ('killed', 'died')
+                t = CONFIRM_KILL if killed else r[0]
+                n0, t0 = st['hist'][-1] if st['hist'] else (0, 1e-3)
+                ratio = (t / max(t0, 1e-3)) ** (1.0 / (n - n0))
+                return t, killed, ratio, (t >= CONFIRM_MIN and ratio >= CONFIRM_RATIO)
+            sus = [i for i, (key, r) in enumerate(zip(keys, res)) if hit(key, r)[3] or r[1] in ('killed', 'died')]
+            # one terminator per candidate is enough to confirm it: re-measure the slowest suspicious one
+            best = {}
+            for i in sus:
+                ci = keys[i][0]
+                if ci not in best or res[i][0] > res[best[ci]][0]:
+                    best[ci] = i
+            pick = sorted(best.values())
+            for i, r in zip(pick, remeasure(chk, pool, [jobs[i] for i in pick], [res[i] for i in pick],
+                                            CONFIRM_KILL, stats)):
+                res[i] = r
+            for i, ((ci, k), r) in enumerate(zip(keys, res)):
+                s = state[(ci, k)]
+                t, killed, ratio, ok = hit((ci, k), r)
+                if ok and i in pick and ci not in confirmed:
+                    confirmed[ci] = {'kill': k, 'n': n, 'cpu_s': round(t, 3), 'killed': killed,
+                                     'per_pump': round(ratio, 2), 'hist': s['hist'] + [(n, round(t, 4))]}
+                s['hist'].append((n, round(t, 4)))
+                if killed:
+                    s['alive'] = False
+            # after the two cheap levels keep the two slowest terminators of each candidate
+            if n == 12 and len(kills) > 2:
+                for ci in range(len(cands)):
+                    ks = sorted(kills, key=lambda k: -state[(ci, k)]['hist'][-1][1] if state[(ci, k)]['hist'] else 0)
+                    for k in ks[2:]:
+                        state[(ci, k)]['alive'] = False
+            n += 2
     out = []
     for ci, c in enumerate(cands):
         c = dict(c)
